@@ -48,6 +48,9 @@ pub enum Trigger {
     OnRequest { ch: u16, nth: u32, instead: bool },
     /// when the nth publish (complete content) on channel ch has arrived
     OnPublish { ch: u16, nth: u32 },
+    /// when the Basic.Publish *method frame* of the nth publish on the channel arrives (its content may
+    /// still be on its way)
+    OnPublishMethod { ch: u16, nth: u32 },
     /// right after the connection is open
     OnOpen,
 }
@@ -57,6 +60,8 @@ pub enum Action {
     CloseChannel { ch: u16, code: u16, text: String },
     CloseConnection { code: u16, text: String },
     CancelConsumer { ch: u16, nth_consumer: u32, nowait: bool },
+    /// the cancel goes on the wire, the close follows it at once
+    CancelThenCloseChannel { ch: u16, nth_consumer: u32, nowait: bool, code: u16, text: String },
     Blocked(String),
     Unblocked,
     /// pre-encoded frames pushed verbatim on the mux queue of channel `ch`
@@ -276,6 +281,12 @@ struct ChanState {
     pending_pub: Option<usize>,     // index into publishes log
     next_delivery_tag: u64,
     epoch: u32,
+    /// the server has sent Channel.Close and still waits for the client's CloseOk
+    awaiting_client_closeok: bool,
+    /// the channel was open once (so that "never opened" and "closed" can be told apart)
+    was_open: bool,
+    /// the last close of this channel was initiated by the server
+    closed_by_server: bool,
 }
 
 #[derive(Clone, Debug, PartialEq)]
@@ -299,6 +310,9 @@ pub struct Broker {
     inbuf: Vec<u8>,
     got_header: bool,
     muxq: BTreeMap<u16, VecDeque<(Vec<u8>, Option<SentKind>, bool)>>,
+    /// frames a real broker would answer with a connection error (504): frames on a channel whose close
+    /// handshake is complete
+    pub client_violations: Vec<String>,
     flush_scheduled: bool,
     glue_rest: Option<(Vec<u8>, u64)>,
     glue_pending: bool,
@@ -362,6 +376,7 @@ impl Broker {
             inbuf: Vec::new(),
             got_header: false,
             muxq: BTreeMap::new(),
+            client_violations: Vec::new(),
             flush_scheduled: false,
             glue_rest: None,
             glue_pending: false,
@@ -994,6 +1009,8 @@ impl Broker {
                 let close = channel::Close { reply_code: code, reply_text: text.clone(), class_id: 0, method_id: 0 };
                 if let Some(cs) = self.chans.get_mut(&ch) {
                     cs.open = false;
+                    cs.awaiting_client_closeok = true;
+                    cs.closed_by_server = true;
                     for c in cs.consumers.iter_mut() {
                         c.1 = false;
                     }
@@ -1003,6 +1020,11 @@ impl Broker {
                 let truncate = simrt::choose("close_truncates_content", 2) == 1;
                 self.clear_queue(ch, truncate);
                 self.enqueue_now(ch, vec![Self::m(ch, AMQPClass::Channel(Ch::Close(close)))], SentKind::ChannelClose { ch, code, text });
+            }
+            Action::CancelThenCloseChannel { ch, nth_consumer, nowait, code, text } => {
+                self.do_action_n(Action::CancelConsumer { ch, nth_consumer, nowait }, 40001);
+                self.flush_all();
+                self.do_action_n(Action::CloseChannel { ch, code, text }, 40001);
             }
             Action::CloseConnection { code, text } => {
                 let handshaking = matches!(self.phase, Phase::AwaitHeader | Phase::AwaitStartOk | Phase::AwaitTuneOk | Phase::AwaitOpen) || (self.phase == Phase::Open && !self.open_ok_on_wire);
@@ -1123,6 +1145,9 @@ impl Broker {
             AMQPFrame::ProtocolHeader => {}
             AMQPFrame::Method(ch, class) => self.on_method(ch, class),
             AMQPFrame::Header(ch, _class, h) => {
+                if !self.chans.get(&ch).map(|c| c.open).unwrap_or(false) {
+                    self.note_frame_on_closed_channel(ch, "content header");
+                }
                 let idx = self.chans.entry(ch).or_default().pending_pub;
                 if let Some(i) = idx {
                     let done = h.body_size == 0;
@@ -1133,6 +1158,9 @@ impl Broker {
                 }
             }
             AMQPFrame::Body(ch, b) => {
+                if !self.chans.get(&ch).map(|c| c.open).unwrap_or(false) {
+                    self.note_frame_on_closed_channel(ch, "content body");
+                }
                 let idx = self.chans.entry(ch).or_default().pending_pub;
                 if let Some(i) = idx {
                     self.publishes[i].body_frames.push(b.len());
@@ -1142,6 +1170,19 @@ impl Broker {
                         self.publish_complete(ch, i);
                     }
                 }
+            }
+        }
+    }
+
+    /// A frame on a channel that is not open.  While the server still waits for the client's CloseOk it
+    /// discards such frames (the client may not have seen the Close yet); once the close handshake is
+    /// complete a real broker answers 504 CHANNEL_ERROR and drops the connection.
+    fn note_frame_on_closed_channel(&mut self, ch: u16, what: &str) {
+        if let Some(cs) = self.chans.get(&ch) {
+            if cs.was_open && !cs.open && !cs.awaiting_client_closeok {
+                let w: String = what.chars().take(100).collect();
+                let who = if cs.closed_by_server { "server-closed" } else { "client-closed" };
+                self.client_violations.push(format!("{}: frame on channel {} after its close handshake was complete: {}", who, ch, w));
             }
         }
     }
@@ -1273,7 +1314,13 @@ impl Broker {
         // again: requests the client sent before it learnt of the close are discarded
         if ch != 0 && !self.chans.get(&ch).map(|c| c.open).unwrap_or(false) {
             if !matches!(class, AMQPClass::Channel(Ch::Open(_)) | AMQPClass::Channel(Ch::Close(_)) | AMQPClass::Channel(Ch::CloseOk(_))) {
+                self.note_frame_on_closed_channel(ch, &format!("{:?}", class));
                 return;
+            }
+        }
+        if let AMQPClass::Channel(Ch::CloseOk(_)) = &class {
+            if let Some(cs) = self.chans.get_mut(&ch) {
+                cs.awaiting_client_closeok = false;
             }
         }
         match class {
@@ -1342,6 +1389,7 @@ impl Broker {
                     *cs = ChanState::default();
                     cs.epoch = epoch;
                     cs.open = true;
+                    cs.was_open = true;
                     let id = format!("chan-{}", self.uniq());
                     self.reply(ch, AMQPClass::Channel(Ch::OpenOk(channel::OpenOk { channel_id: id })));
                 }
@@ -1536,6 +1584,16 @@ impl Broker {
                     });
                     let idx = self.publishes.len() - 1;
                     self.chans.entry(ch).or_default().pending_pub = Some(idx);
+                    for sidx in 0..self.cfg.script.len() {
+                        if self.script_fired[sidx] {
+                            continue;
+                        }
+                        if let Trigger::OnPublishMethod { ch: c, nth: n } = self.cfg.script[sidx].0.clone() {
+                            if c == ch && n == seq {
+                                self.fire_script(sidx);
+                            }
+                        }
+                    }
                 }
                 B::CancelOk(_) | B::Ack(_) | B::Nack(_) | B::Reject(_) | B::RecoverAsync(_) => {}
                 _ => {}
